@@ -971,6 +971,10 @@ class C11(PropBase):
                     return "get_symbol_at_address(%d) = %s: no FUNC of that name contains the address and no PUBLIC of that name is at or below it" % (q, gname)
         if twin != "Xok":
             # c11_inline_order_irrelevant: Function values and every symbolication are independent of the order of the INLINE ranges
+            if twin.startswith("Xmove:"):
+                return ("the same records with the FILE / INLINE_ORIGIN lines moved to the end of the file give a different result (%s): "
+                        "names or lines depend on where a FILE / INLINE_ORIGIN record stands among the others, so one of the two files misreports "
+                        "the records covering the address" % twin[6:])
             return ("the same file with the INLINE ranges of each FUNC block in another order gives a different result (%s): "
                     "inline frames / call-site lines depend on record order, so some order misreports the calls covering the address" % twin[1:])
         return None
